@@ -299,7 +299,10 @@ fn run(req: &str) -> String {
                 Ok(body) => {
                     let mut inp = body.clone();
                     inp.extend_from_slice(b"\nendobj\n");
-                    format!("{}|{}|reader:{}", hex(&body), parse_stream_and_next(&inp), reader_image_data(pdf))
+                    // `PdfReader` on an object-stream file costs 6–10 s in this unoptimised build
+                    // (a timeout under load): the whole-file reader runs on the classic layout only
+                    let rd = if parts[1] == "o" { "n/a".to_string() } else { reader_image_data(pdf) };
+                    format!("{}|{}|reader:{}", hex(&body), parse_stream_and_next(&inp), rd)
                 }
             }
         }
@@ -687,8 +690,7 @@ fn gen(rng: &mut Rng, tier: Tier) -> Vec<Case> {
         }
         let divs: Vec<usize> = (1..=p.len()).filter(|d| p.len() % d == 0).collect();
         let w = *rng.pick(&divs);
-        // the object-stream configuration costs ~6 s per case in `PdfReader` (unoptimised build): a few only
-        let mode = if i % 30 == 29 { "o" } else { "d" };
+        let mode = if i % 6 == 5 { "o" } else { "d" };
         cases.push(Case::new(format!("img {} {} {}", mode, w, hex(&p)), format!("img-{} nt", mode)));
     }
     // 8. hand-shaped stream objects through `PdfObject::parse`: every EOL variant after `stream`,
